@@ -856,6 +856,42 @@ struct Driver {
             exec(op); return;
         }
     }
+    // directed end-of-trace sweep (C11): every free halfface alone, and every pair of free halffaces sharing an edge, as a
+    // topology-checked cell.  None of these is a closed surface except a face with its own opposite ("pillow"): the
+    // check must refuse them whatever the parity / index pattern of their boundary halfedges is.
+    void sweep_small_cells() {
+        if (kind == "hex") return;
+        std::vector<int> fr = free_hfs();
+        if (fr.size() > 40) { rng.shuffle(fr); fr.resize(40); }
+        for (int h : fr) {
+            if (!liveHF(h) || hf_in_live_cell(h)) continue;
+            Op op; op.name = "add_cell"; op.a = {1, 1, (long)h}; exec(op);
+        }
+        int pairs = 0;
+        for (size_t i = 0; i < fr.size() && pairs < 40; ++i) for (size_t j = i + 1; j < fr.size() && pairs < 40; ++j) {
+            int a = fr[i], b = fr[j];
+            if (!liveHF(a) || !liveHF(b) || hf_in_live_cell(a) || hf_in_live_cell(b)) continue;
+            std::vector<int> ha = hf_hes(a), hb = hf_hes(b); bool share = false;
+            for (int x : ha) for (int y : hb) if ((x >> 1) == (y >> 1)) share = true;
+            if (!share) continue;
+            Op op; op.name = "add_cell"; op.a = {1, 2, (long)a, (long)b}; exec(op); ++pairs;
+        }
+    }
+    // a face over fresh vertices whose boundary edges are created explicitly, each in a random direction (the halfedges of
+    // the face then have a random parity pattern over consecutive edge indices)
+    void dirface() {
+        if (kind == "hex") return;
+        int k = kind == "tet" ? 3 : 3 + (int)rng.below(3);
+        std::vector<int> vs; for (int i = 0; i < k; ++i) vs.push_back(fresh_vertex());
+        std::vector<long> hes;
+        for (int i = 0; i < k; ++i) {
+            int a = vs[i], b = vs[(i + 1) % k]; bool rev = rng.chance(1, 2);
+            if (!exec(mk("add_edge", {rev ? b : a, rev ? a : b, 0}))) return;
+            hes.push_back(2 * (nE() - 1) + (rev ? 1 : 0));
+        }
+        Op op; op.name = "add_face_he"; op.a.push_back(1); op.a.push_back((long)k); for (long h : hes) op.a.push_back(h);
+        exec(op);
+    }
     void gen_mode() {
         int what = (int)rng.below(10);
         if (what < 2) exec(mk("enable_deferred", {(long)rng.below(2)}));
@@ -877,7 +913,7 @@ struct Driver {
         int w = (int)rng.below(100);
         int nent = nV() + nE() + nF() + nC();
         if (profile == "c11") {
-            if (w < 35 || nent < 8) grow(); else if (w < 80) gen_malformed(); else if (w < 88) gen_delete(); else if (w < 94) gen_mode(); else { Op o = mk("add_edge", {0, 0, 0}); std::vector<int> lv = live(0); if (lv.size() >= 2) { o.a[0] = rng.pick(lv); o.a[1] = rng.pick(lv); if (o.a[0] != o.a[1]) exec(o); } }
+            if (w < 8) dirface(); else if (w < 35 || nent < 8) grow(); else if (w < 80) gen_malformed(); else if (w < 88) gen_delete(); else if (w < 94) gen_mode(); else { Op o = mk("add_edge", {0, 0, 0}); std::vector<int> lv = live(0); if (lv.size() >= 2) { o.a[0] = rng.pick(lv); o.a[1] = rng.pick(lv); if (o.a[0] != o.a[1]) exec(o); } }
         } else if (profile == "c17") {
             if (w < 30 || nent < 10) grow(); else if (w < 75) gen_swap(); else if (w < 85) gen_delete(); else if (w < 93) gen_mode(); else gen_prop();
         } else if (profile == "c09" || profile == "c10" || profile == "c05") {
@@ -949,6 +985,7 @@ template <class Mesh> static void run_trace(const std::string& kind, const std::
     int np = (int)d.rng.below(4);
     for (int i = 0; i < np; ++i) d.gen_prop();
     for (int i = 0; i < ops; ++i) d.step();
+    if (profile == "c11") d.sweep_small_cells();
 }
 
 int main(int argc, char** argv) {
